@@ -17,7 +17,7 @@ structure Durable0 (C : Crypto) (d : Disk) (hf : Header) (a0 : Abs) (es : List E
   oplog : OpImage d.oplog hf es
   hfLen : hf.tree.length = a0.blocks.size
   hfSig : hf.tree.signature = [] ∨ hf.tree.signature.length = 64
-  hfSecret : hf.secret.isSome = true
+  hfSecret : hf.secret.isSome = a.writable
   hfShape : HdrShape hf
   oks : ∀ e ∈ es, EntryOK e
   fileNodes : NodesOK C a0.blocks {} d.tree
@@ -42,8 +42,7 @@ structure Durable (C : Crypto) (d : Disk) (hf : Header) (a0 : Abs) (es : List En
 theorem durable_open (C : Crypto) (hC : HashWF C) (hTw : TreeWF C) (d : Disk) (hf : Header) (a0 : Abs) (es : List Entry) (a : Abs)
     (h : Durable0 C d hf a0 es a) : ∃ c' j, Core.openCore C none d = .ok (c', j) ∧ Rep C c' (d.applyAll j) a := by
   obtain ⟨ost, ops, hlog, hops, _⟩ := opimage_open _ hf es h.oplog
-  obtain ⟨sk, hsk⟩ := Option.isSome_iff_exists.mp h.hfSecret
-  obtain ⟨c', ho, hr⟩ := Reopen.reopen_refines C hC hTw d ost hf es a0 a sk ops hops hlog h.hfLen h.hfSig hsk h.hfShape h.oks h.fileNodes h.stable h.kept
+  obtain ⟨c', ho, hr⟩ := Reopen.reopen_refines C hC hTw d ost hf es a0 a ops hops hlog h.hfLen h.hfSig h.hfSecret h.hfShape h.oks h.fileNodes h.stable h.kept
     h.low h.below h.held0Lt h.contig h.small0 h.trace h.data
   exact ⟨c', ops, ho, hr⟩
 
@@ -117,7 +116,7 @@ theorem recover_persist (C : Crypto) (hC : HashWF C) (hTw : TreeWF C) (d : Disk)
   refine ⟨_, ops, hopen, ?_, ?_⟩
   · exact {
       writer := by
-        show h'.secret.isSome = true
+        show h'.secret.isSome = a.writable
         rw [hs']; exact h.hfSecret
       tree := hinv.tree
       nodes := by rw [hd1t]; exact hinv.nodes
@@ -438,7 +437,7 @@ theorem crash_flush (C : Crypto) (hC : HashWF C) (c : Core) (d : Disk) (hf : Hea
           rw [← f1 dd o hb]
           exact node?_congr _ _ _ _ rfl
         exact {
-          oplog := Or.inr ⟨c.oplog, d.oplog, hf, es, hp.oplog, headerOK_of_shape _ hp.shape, rfl, by rw [hd3op, hO]⟩
+          oplog := Or.inr ⟨c.oplog, d.oplog, hf, es, false, hp.oplog, headerOK_of_shape _ hp.shape, rfl, by rw [hd3op, ← hO]; simp [Oplog.flush]⟩
           hfLen := hp.hdrLen
           hfSig := hp.hdrSig
           hfSecret := by rw [hp.hdrSecret]; exact hrep.writer
@@ -464,7 +463,7 @@ theorem crash_flush (C : Crypto) (hC : HashWF C) (c : Core) (d : Disk) (hf : Hea
 /-- a non-empty append up to its flush decision, with both invariants for the state in between -/
 theorem append_mid (C : Crypto) (hC : HashWF C) (hS : SignWF C) (hTw : TreeWF C) (c : Core) (d : Disk) (hf : Header) (a0 a : Abs)
     (es : List Entry) (hrep : Rep C c d a) (hp : Persist C c d hf a0 es a) (batch : List Bytes) (hne : batch ≠ [])
-    (hv : Valid a (.append batch)) (hl : Limits a (.append batch)) :
+    (hv : Valid a (.append batch)) (hl : Limits a (.append batch)) (hw : a.writable = true) :
     ∃ (c1 : Core) (entry : Entry) (ow : SOp),
       ow = SOp.write .oplog (Spec.entriesOffset + c.oplog.entriesByteLength) (frame (encEntry entry) c.oplog.currentBit false)
       ∧ EntryOK entry
@@ -473,7 +472,7 @@ theorem append_mid (C : Crypto) (hC : HashWF C) (hS : SignWF C) (hTw : TreeWF C)
       ∧ Persist C c1 (d.applyAll [SOp.write .data (totalBytes a.blocks) batch.flatten, ow]) hf a0 (es ++ [entry]) (a.step (.append batch)).1 := by
   obtain ⟨c1, j01, entry, _, hrep1, ht, hb, hbits, hentry, hlen, hsig, hsec, hsec2, hop, hdop, hfork,
       ⟨rh, sg, cc, hhdr, ⟨l, hrh⟩, hsg⟩, hentOK, hjournal, hj01⟩ :=
-    append_shape C hC c d a hrep batch hne hv
+    append_shape C hC c d a hrep batch hne hv hw
   have hcc : cc = c1.header.contiguous := by rw [hhdr]
   have hshape : HdrShape c1.header := by
     rw [hhdr]
@@ -485,7 +484,7 @@ theorem append_mid (C : Crypto) (hC : HashWF C) (hS : SignWF C) (hTw : TreeWF C)
       rw [← hcc] at this
       have hsz := hrep1.small.1
       unfold U64; omega
-  have hp1 := persist_append_pre C c c1 d (d.applyAll j01) hf a0 a es batch entry hp hrep1 hne ht hb hbits
+  have hp1 := persist_append_pre C c c1 d (d.applyAll j01) hf a0 a es batch entry hp hrep1 hne hw ht hb hbits
     (hentry hS) hlen (hsig hS) hsec hsec2 hop hdop (hentOK hS hl.1 hl.2 hp.forkU) hshape hfork
   rw [hj01] at hjournal hrep1 hp1
   exact ⟨c1, entry, _, rfl, hentOK hS hl.1 hl.2 hp.forkU, hjournal, hrep1, hp1⟩
@@ -553,6 +552,142 @@ theorem clear_logged (C : Crypto) (c c1 : Core) (d : Disk) (hf : Header) (a0 a :
     simp only [Bool.and_eq_true] at hi
     exact hrep.data i hi.1 kk hkk
 
+/-- replacing the oplog store by another image of the same header and entries -/
+theorem durable_oplogS (C : Crypto) (d d' : Disk) (hf : Header) (a0 : Abs) (es : List Entry) (a : Abs)
+    (h : Durable C d hf a0 es a) (ht : d'.tree = d.tree) (hb : d'.bitfield = d.bitfield) (hd : d'.data = d.data)
+    (ho : OpImage d'.oplog hf es) : Durable C d' hf a0 es a :=
+  { oplog := ho
+    hfLen := h.hfLen
+    hfSig := h.hfSig
+    hfSecret := h.hfSecret
+    hfShape := h.hfShape
+    oks := h.oks
+    fileNodes := by rw [ht]; exact h.fileNodes
+    fileSize := by rw [hb]; exact h.fileSize
+    stable := by rw [hb]; exact h.stable
+    kept := by rw [hb]; exact h.kept
+    low := by rw [hb]; exact h.low
+    below := by rw [hb]; exact h.below
+    held0Lt := h.held0Lt
+    contig := h.contig
+    small0 := h.small0
+    trace := h.trace
+    data := by rw [hd]; exact h.data }
+
+/-- **`make_read_only` cut anywhere**: the stores are durable for the writable log (until the first header write
+    reaches the store) or for the same log, read-only (from then on) -/
+theorem crash_ro (C : Crypto) (hC : HashWF C) (c : Core) (d : Disk) (hf : Header) (a0 a : Abs) (es : List Entry)
+    (hrep : Rep C c d a) (hp : Persist C c d hf a0 es a) (hw : a.writable = true) (k : Nat) :
+    (∃ hf' a0' es', Durable C (d.applyAll (c.makeReadOnly.journal.take k)) hf' a0' es' a)
+      ∨ (∃ hf' a0' es', Durable C (d.applyAll (c.makeReadOnly.journal.take k)) hf' a0' es' { a with writable := false }) := by
+  have hsome : c.secret.isSome = true := by rw [hrep.writer]; exact hw
+  have hrep1 := rep_drop_secret C c d a hrep
+  generalize hc1 : ({ c with secret := none, header := { c.header with secret := none } } : Core) = c1 at hrep1
+  have hj : c.makeReadOnly.journal = (c1.flushAll true).2 := by simp only [Core.makeReadOnly, hsome, ite_true, hc1]
+  have c1b : c1.bitfield = c.bitfield := by rw [← hc1]
+  have c1t : c1.tree = c.tree := by rw [← hc1]
+  have c1o : c1.oplog = c.oplog := by rw [← hc1]
+  have c1h : c1.header = { c.header with secret := none } := by rw [← hc1]
+  have c1s : c1.header.secret = c1.secret := by rw [← hc1]
+  -- the complete call
+  have hPf := flushAll_persist C hC c1 d hf _ es true hrep1 (by rw [c1o]; exact hp.oplog) hp.fileSize (by rw [c1b]; exact hp.dirty)
+    (by rw [c1h]; exact hdrShape_nosecret _ hp.shape) (by rw [c1h]; exact hp.hdrLen) (by rw [c1h]; exact hp.hdrSig) c1s
+    (by rw [c1t]; exact hp.forkU)
+  obtain ⟨k1, k2, k3, k4, k5, k6, k7⟩ := flushAll_keeps C hC a.blocks c1 d true (by rw [c1t]; exact hrep.nodes) (by rw [c1t]; exact hrep.mapwf)
+  have hRf : Rep C (c1.flushAll true).1 (d.applyAll (c1.flushAll true).2) { a with writable := false } := {
+    writer := by rw [k6]; exact hrep1.writer
+    tree := by show RootsOK C a.blocks _; rw [k1]; exact hrep1.tree
+    nodes := k2
+    mapwf := k3
+    bits := by intro i; rw [k4]; exact hrep1.bits i
+    heldLt := hrep.heldLt
+    contig := by rw [k5]; exact ⟨fun i hi => by rw [k4]; exact hrep1.contig.1 i hi, by rw [k4]; exact hrep1.contig.2⟩
+    data := by rw [k7]; exact hrep.data
+    small := hrep.small }
+  have hDf := persist_durable C _ _ _ _ _ _ hRf hPf
+  rw [hj]
+  simp only [Core.flushAll] at hDf ⊢
+  rw [c1b, c1t, c1o] at hDf ⊢
+  -- the journal: pages, nodes, header, truncate, header
+  have hj1 := Journal.bitfieldFlush_store c.bitfield
+  have hj2 := Journal.treeFlush_store c.tree
+  generalize hP : c.bitfield.flush.2 = P at hj1 hDf
+  generalize hT : c.tree.flush.2 = T at hj2 hDf
+  have hO3 : (Oplog.flush c.oplog c1.header true).2
+      = (Oplog.insertHeader c1.header 0 c.oplog.bits true).2 ++ ((Oplog.insertHeader c1.header 0 (Oplog.insertHeader c1.header 0 c.oplog.bits true).1 true).2.take 1) := by
+    simp [Oplog.flush]
+  have hI : ∃ w t, (Oplog.insertHeader c1.header 0 c.oplog.bits true).2 = [w, t] := by
+    simp only [Oplog.insertHeader]; exact ⟨_, _, rfl⟩
+  have hI2 : ∃ w2, ((Oplog.insertHeader c1.header 0 (Oplog.insertHeader c1.header 0 c.oplog.bits true).1 true).2.take 1) = [w2] := by
+    simp only [Oplog.insertHeader]; exact ⟨_, rfl⟩
+  obtain ⟨w, t, hIe⟩ := hI
+  obtain ⟨w2, hI2e⟩ := hI2
+  have hOs : ∀ op ∈ (Oplog.flush c.oplog c1.header true).2, op.store = .oplog := Journal.oplogFlush_store c.oplog c1.header true
+  generalize hO : (Oplog.flush c.oplog c1.header true).2 = O at hDf hO3 hOs
+  have hOe : O = [w, t, w2] := by rw [hO3, hIe, hI2e]; rfl
+  by_cases hk : k ≤ (P ++ T).length
+  · -- before the first header write: the same stores as a flush of the writable core cut at `k`
+    left
+    have hcc : Rep C { c with skipFlush := 0 } d a := ⟨hrep.writer, hrep.tree, hrep.nodes, hrep.mapwf, hrep.bits, hrep.heldLt, hrep.contig, hrep.data, hrep.small⟩
+    have hpc : Persist C { c with skipFlush := 0 } d hf a0 es a := { hp with }
+    have := crash_flush C hC { c with skipFlush := 0 } d hf a0 a es hcc hpc k
+    rw [maybeFlush_eq] at this
+    simp only [true_or, ite_true, Core.flushAll, hP, hT] at this
+    have e1 : (P ++ T ++ O).take k = (P ++ T).take k := by
+      rw [List.take_append_of_le_length hk]
+    have e2 : (P ++ T ++ (Oplog.flush c.oplog c.header false).2).take k = (P ++ T).take k := by
+      rw [List.take_append_of_le_length hk]
+    rw [e1]; rw [e2] at this
+    exact this
+  · -- from the first header write on: the read-only log
+    right
+    refine ⟨c1.header, { a with writable := false }, [], ?_⟩
+    have hOst : ∀ m, ∀ op ∈ O.take m, op.store = .oplog := fun m op hop => hOs op (List.mem_of_mem_take hop)
+    rw [take_beyond _ _ k (by omega), Journal.applyAll_append]
+    generalize hm : k - (P ++ T).length = m
+    have hm1 : 1 ≤ m := by omega
+    -- the side stores no longer change
+    have hside : ∀ st, st ≠ Store.oplog → ((d.applyAll (P ++ T)).applyAll (O.take m)).get st = (d.applyAll (P ++ T ++ O)).get st := by
+      intro st hst
+      rw [Journal.applyAll_append d (P ++ T) O, Journal.applyAll_other _ (O.take m) st (fun op hop => by rw [hOst m op hop]; exact fun e => hst e.symm),
+        Journal.applyAll_other _ O st (fun op hop => by rw [hOs op hop]; exact fun e => hst e.symm)]
+    have hopl : ((d.applyAll (P ++ T)).applyAll (O.take m)).oplog = (O.take m).foldl (fun g op => op.onFile g) d.oplog := by
+      have h1 := applyAll_last_only (d.applyAll (P ++ T)) [] (O.take m) .oplog (fun op hop => by cases hop) (hOst m)
+      have h2 := Journal.applyAll_other d (P ++ T) .oplog (fun op hop => by
+        rcases List.mem_append.mp hop with h | h
+        · rw [hj1 op h]; decide
+        · rw [hj2 op h]; decide)
+      simp only [List.nil_append, Disk.get] at h1 h2
+      rw [h1, h2]
+    apply durable_oplogS C _ _ c1.header _ [] _ hDf
+    · have := hside .tree (by decide); simpa [Disk.get] using this
+    · have := hside .bitfield (by decide); simpa [Disk.get] using this
+    · have := hside .data (by decide); simpa [Disk.get] using this
+    · rw [hopl]
+      have hokh : HeaderOK c1.header := headerOK_of_shape _ (by rw [c1h]; exact hdrShape_nosecret _ hp.shape)
+      by_cases hm1' : m = 1
+      · -- header written, entries not yet truncated
+        subst hm1'
+        refine Or.inr ⟨c.oplog, d.oplog, hf, es, true, hp.oplog, hokh, rfl, ?_⟩
+        rw [hOe, hIe]; rfl
+      · by_cases hm2 : m = 2
+        · subst hm2
+          have := opinv_insert c.oplog d.oplog hf es c1.header true hp.oplog hokh
+          rw [hIe] at this
+          rw [hOe]
+          exact opimage_of_inv _ _ _ _ this
+        · have hm3 : O.take m = O := List.take_of_length_le (by rw [hOe]; simp; omega)
+          rw [hm3]
+          have := hDf.oplog
+          have hfin : (d.applyAll (P ++ T ++ O)).oplog = O.foldl (fun g op => op.onFile g) d.oplog := by
+            have h1 := applyAll_last_only d (P ++ T) O .oplog (fun op hop => by
+              rcases List.mem_append.mp hop with h | h
+              · rw [hj1 op h]; decide
+              · rw [hj2 op h]; decide) hOs
+            simpa [Disk.get] using h1
+          rw [hfin] at this
+          exact this
+
 /-- **C02 on the model, one call.**  Whatever prefix of the call's storage operations reached the stores,
     they are durable for the log before the call or for the log after it. -/
 theorem crash_step (C : Crypto) (hC : HashWF C) (hS : SignWF C) (hTw : TreeWF C) (c : Core) (d : Disk) (hf : Header) (a0 a : Abs)
@@ -563,6 +698,15 @@ theorem crash_step (C : Crypto) (hC : HashWF C) (hS : SignWF C) (hTw : TreeWF C)
   cases op with
   | has i => exact Or.inl ⟨hf, a0, es, by simpa [crashDisk, journalC, Disk.applyAll] using hdur⟩
   | info => exact Or.inl ⟨hf, a0, es, by simpa [crashDisk, journalC, Disk.applyAll] using hdur⟩
+  | makeReadOnly =>
+    by_cases hw : a.writable = true
+    · have habs : (a.step .makeReadOnly).1 = { a with writable := false } := by simp [Abs.step, hw]
+      rw [habs]
+      exact crash_ro C hC c d hf a0 a es hrep hp hw k
+    · have hwf : a.writable = false := by simpa using hw
+      have hnone : c.secret.isSome = false := by rw [hrep.writer]; exact hwf
+      have hj : c.makeReadOnly.journal = [] := by simp [Core.makeReadOnly, hnone]
+      exact Or.inl ⟨hf, a0, es, by simpa [crashDisk, journalC, hj, Disk.applyAll] using hdur⟩
   | get i =>
     have hj : (c.getBlock d i).journal = [] := by
       unfold Core.getBlock
@@ -575,12 +719,22 @@ theorem crash_step (C : Crypto) (hC : HashWF C) (hS : SignWF C) (hTw : TreeWF C)
           · split <;> rfl
     exact Or.inl ⟨hf, a0, es, by simpa [crashDisk, journalC, hj, Disk.applyAll] using hdur⟩
   | append batch =>
+    by_cases hw : a.writable = true
+    swap
+    · have hwf : a.writable = false := by simpa using hw
+      have hsec : c.secret = none := by
+        have := hrep.writer; rw [hwf] at this
+        cases hs : c.secret with
+        | none => rfl
+        | some x => rw [hs] at this; simp at this
+      have hj : (c.appendBatch C batch).journal = [] := by simp [Core.appendBatch, hsec]
+      exact Or.inl ⟨hf, a0, es, by simpa [crashDisk, journalC, hj, Disk.applyAll] using hdur⟩
     by_cases hemp : batch.isEmpty = true
-    · obtain ⟨seed, hseed⟩ : ∃ seed, c.secret = some seed := Option.isSome_iff_exists.mp hrep.writer
+    · obtain ⟨seed, hseed⟩ : ∃ seed, c.secret = some seed := Option.isSome_iff_exists.mp (by rw [hrep.writer]; exact hw)
       have hj : (c.appendBatch C batch).journal = [] := by simp [Core.appendBatch, hseed, hemp]
       exact Or.inl ⟨hf, a0, es, by simpa [crashDisk, journalC, hj, Disk.applyAll] using hdur⟩
     · have hne : batch ≠ [] := by intro e; apply hemp; simp [e]
-      obtain ⟨c1, entry, ow, _, _, hjournal, hrep1, hp1⟩ := append_mid C hC hS hTw c d hf a0 a es hrep hp batch hne hv hl
+      obtain ⟨c1, entry, ow, _, _, hjournal, hrep1, hp1⟩ := append_mid C hC hS hTw c d hf a0 a es hrep hp batch hne hv hl hw
       show (∃ hf' a0' es', Durable C (d.applyAll ((c.appendBatch C batch).journal.take k)) hf' a0' es' a) ∨ _
       show _ ∨ (∃ hf' a0' es', Durable C (d.applyAll ((c.appendBatch C batch).journal.take k)) hf' a0' es' (a.step (.append batch)).1)
       rw [hjournal]
